@@ -117,51 +117,10 @@ FLOORS = {
                  "sets": {"expr_classes": 40}, "max_skipped_fraction": 0.2},
 }
 
-# Genuine defects observed on the unchanged tree (witnesses, locations and proposed fixes: findings_proposed/C43.md)
-PENDING = {
-    "simplified-logical:head-or-tail-pushed-into-scalar-operand-of-elemwise:AttributeError@utils.py:__call__":
-        "Head/Tail._simplify_down push head/tail into the scalar (reduction) operand of an elementwise op: (s + s.std()).head() raises (fix proposed)",
-    "simplified-logical:projection-through-fillna-dict:values":
-        "df.fillna({'c': v})['c']: projection pushed through Fillna with a dict value -> Series.fillna(dict) fills nothing (fix proposed)",
-    "simplified-logical:projection-through-fillna-dict:length":
-        "same mechanism seen through a later filter on the (not) filled column",
-    "simplified-physical:projection-through-fillna-dict:length":
-        "same mechanism when the projection is only pushed by the second simplify (after lowering, under head)",
-    "simplified-logical:concat-projected-to-zero-columns:IndexError@dataframe/dask_expr/_concat.py:_meta":
-        "concat([a, b]).assign(z=1)['z']: Concat._simplify_up drops all frames when no original column is selected (fix proposed)",
-    "logical:concat-projected-to-zero-columns:IndexError@dataframe/dask_expr/_concat.py:_meta":
-        "same mechanism reached while lowering sort_values/set_index of such a concat",
-    "simplified-logical:projection-through-concat-of-frames-with-different-columns:length":
-        "concat([df[['a','c']], df[['a']]])['c'] silently loses the rows of the frame without column c (same line, same fix)",
-    "simplified-logical:projection-through-concat-of-frames-with-different-columns:dtype":
-        "same mechanism; the NaN rows that would make the column float are missing",
-    "simplified-logical:projection-through-concat-of-frames-with-different-columns:values":
-        "same mechanism seen through a later reduction/elementwise op",
-    "reoptimized-fused:fused-group-reads-rewritten-dependency:ValueError@local.py:start_state_from_dask":
-        "optimize() of an already fused expression rewrites a Fused node's operands but not the expressions inside the group: "
-        "collection.optimize().compute() raises Missing dependency (~5 % of programs; no small fix)",
-    "reoptimized-fused:fused-group-reads-rewritten-dependency:ValueError@_task_spec.py:fuse":
-        "same mechanism, noticed already by Task.fuse while materialising the graph",
-    "simplified-logical:head-of-head-uses-outer-npartitions:values":
-        "same mechanism seen through a later reduction",
-    "simplified-logical:head-of-head-uses-outer-npartitions:length":
-        "Head(Head(x, n1, npartitions=-1), n2) is merged into Head(x, min(n), npartitions of the OUTER head): "
-        "df.head(4, npartitions=-1, compute=False).head(2) only looks at the first partition (fix proposed)",
-    "simplified-logical:projection-pushed-below-sort-head:KeyError@dataframe/dask_expr/_reductions.py:_nfirst":
-        "sort_values(k).head(n) -> NFirst; a later projection without k is pushed below it (fix proposed)",
-    "simplified-logical:projection-pushed-below-sort-head:TypeError@dataframe/dask_expr/_reductions.py:_nfirst":
-        "same mechanism with a single-column projection: NFirst on a Series calls Series.sort_values(by=)",
-    "simplified-logical:projection-pushed-below-sort-head:KeyError@dataframe/dask_expr/_reductions.py:_nlast":
-        "same mechanism for sort_values(k).tail(n)",
-    "simplified-logical:projection-pushed-below-sort-head:TypeError@dataframe/dask_expr/_reductions.py:_nlast":
-        "same mechanism for sort_values(k).tail(n), single column",
-    "simplified-physical:assign+filt+head:KeyError@_task_spec.py:__call__":
-        "df[p].assign(a=1)[p2].head(5)['a'] on ONE partition: the second simplify (after lowering) loses the Assign between "
-        "two filters, the projection of the assigned column then fails (no fix proposed)",
-    "simplified-physical:filt+head+pred+reduce:IndexError@_task_spec.py:__call__":
-        "second simplify squashes two filters although the upper predicate (with a reduction) already reads the filtered column: "
-        "mask of mixed lengths, raises with duplicate index labels (no fix proposed)",
-}
+# All labels that fired on the tree this module was calibrated on have repository fixes
+# (fixes_ready/C43_*.patch, or fixes that entered /repo meanwhile); they are listed under "fixed" in
+# known_findings.d/C43.json.  Nothing is left pending.
+PENDING = {}
 
 PARTS_EXH = (
     {"how": "npartitions", "n": 1},
